@@ -108,3 +108,17 @@ Definition env_conforms_on (names : list string) (gen spec : env) : bool :=
    identically in the regenerated environment *)
 Definition request_side_conforms (gen spec : env) : bool := env_conforms_on (closure spec request_roots) gen spec.
 Definition response_side_conforms (gen spec : env) : bool := env_conforms_on (closure spec response_roots) gen spec.
+
+(* raw (plain) struct member types, for declarations without a serde meaning (ctap1 responses) *)
+Fixpoint find_struct_field_ty (l : list rdecl) (sname fname : string) : option ty :=
+  match l with
+  | [] => None
+  | RStruct s :: r =>
+      if String.eqb (rs_name s) sname
+      then match find (fun rf => String.eqb (rf_name rf) fname) (rs_fields s) with
+           | Some rf => Some (rf_ty rf)
+           | None => None
+           end
+      else find_struct_field_ty r sname fname
+  | _ :: r => find_struct_field_ty r sname fname
+  end.
